@@ -158,6 +158,17 @@ Definition remove_site (i : nat) (l : list site) : option (list site) :=
     else Some (delete (setS l (S i) blank) i)
   else None.
 
+(* in-place rescaling of the listed site tensors by a scalar (Tensor.__imul__ /
+   __itruediv__, TensorNetwork.multiply[_] with any spread_over, multiply_each[_],
+   `psi *= c`, `psi /= c` go through Tensor.modify(apply=...); MPS.normalize goes
+   through modify(data=...)): the data is replaced, so the flag is cleared, and a
+   rescaled tensor is not guaranteed isometric any more *)
+Fixpoint scale_sites (ss : list nat) (l : list site) : option (list site) :=
+  match ss with
+  | [] => Some l
+  | s :: r => if s <? length l then scale_sites r (setS l s blank) else None
+  end.
+
 (* calc_current_orthog_center() = (lo, hi): sites < lo are left-, > hi right-isometric *)
 Fixpoint assume_from (k lo hi : nat) (l : list site) : list site :=
   match l with
@@ -355,7 +366,12 @@ Inductive op :=
 | OGate1 (i : nat) (unitary : bool)
 | OMeasure (s : nat) (remove : bool)
 | ODroppedCopy (dec : bool) (w1 w2 : nat)
-| OLocalExpMany (ws : list (nat * nat)) (inplace : bool).
+| OLocalExpMany (ws : list (nat * nat)) (inplace : bool)
+| OScale (ss : list nat)
+    (* a scalar rescale that touches the site tensors ss; these calls do not take the
+       record, which is left as it is *)
+| OSetRecord (r : rcd).
+    (* the user starts a fresh record: info = {} / info["cur_orthog"] = None / "calc" *)
 
 Definition step (o : op) (calc : nat * nat) (st : mps) : option mps :=
   match o with
@@ -370,6 +386,8 @@ Definition step (o : op) (calc : nat * nat) (st : mps) : option mps :=
   | OMeasure s r => measure s r calc st
   | ODroppedCopy dec w1 w2 => canonicalize_dropped_copy w1 w2 calc (if dec then decorated st else st)
   | OLocalExpMany ws ip => local_exp_many ws ip calc st
+  | OScale ss => bind (scale_sites ss (sites st)) (fun l => Some (mkM l (rec st)))
+  | OSetRecord r => Some (mkM (sites st) r)
   end.
 
 Fixpoint run (ops : list (op * (nat * nat))) (st : mps) : option mps :=
